@@ -1,19 +1,32 @@
-// xlate_logconc — reads log/context_utils.go of the current tree with go/ast and
+// xlate_logconc — reads package log of the current tree (go/parser, go/ast only) and
 //
-//  1. (-gen FILE) lists, for WithFields and SetLevel, the atomic operations on the shared
-//     holder in evaluation order as a term of the instruction type of Base/LogConc.v
-//     (ILoad | IStore f | ICas f retry_pc), to be compared with the hand-written programs of
-//     LogCtxModel.v by eq_refl;
-//  2. (-instrument) rewrites the same file in place so that a scheduler hook runs before each
-//     of exactly those operations (same walk, so yield sites and instructions line up):
-//     lh.Load() becomes verifBefore(lh).Load(), lh.Store(x) becomes lh.Store(verifBefore(x)),
-//     lh.CompareAndSwap(a, b) becomes lh.CompareAndSwap(a, verifBefore(b)).
-//     Mutexes (not part of the instruction set, the tie then breaks) are made schedulable too:
-//     mu.Lock() becomes verifLock(mu.TryLock) — a yield, then a yield-spin on TryLock, so a
-//     goroutine waiting for the lock just burns steps — mu.RLock() verifLock(mu.TryRLock),
-//     mu.Unlock()/RUnlock() verifUnlock(mu.Unlock) — a yield, then the unlock.
+//  1. (-gen FILE) symbolically executes WithFields, SetLevel and ChildLogger and writes, per
+//     function, the control-flow graph of its atomic operations on the context's shared holder
+//     as a term of Base/LogConcCfg.v:
 //
-// Only the standard library is used.
+//     GLoad n | GRead n | GStore f n | GCas f succ fail      (target >= #nodes: the function returns)
+//
+//     Unexported helper functions / methods and closures are inlined (the derivation handed to a
+//     retry helper as a func literal, say), locals are abstracted to what matters: "the pointer
+//     loaded last", "f applied to it" (f = logger.With(fields...) -> FWith,
+//     CustomLevelLogger(logger, level) -> FLevel, also through pure one-line helpers), known
+//     booleans (the result of a CompareAndSwap, flags).  Loop forms are NOT normalised here: the
+//     graph is what the code does, and Coq decides (prog_equiv, proved sound in
+//     Base/LogConcCfgProofs.v) whether it is bisimilar to the hand-written program of the
+//     theorems.  Anything the executor does not understand on the way (mutexes, channels,
+//     data-dependent branches around atomic operations, a new value that is not derived from the
+//     pointer being compared ...) is written as a term that does not type-check, naming the
+//     reason: the tie is then broken.
+//
+//  2. (-instrument) rewrites the package in place so that a scheduler hook runs before every
+//     atomic operation (Load/Store/CompareAndSwap/Swap) in the functions reachable from the three
+//     entry points - except the operations the executor has seen ONLY on a holder that was
+//     freshly allocated by the call itself (thread-local) and the function that looks the holder
+//     up in the context:
+//     h.Load() -> verifBefore(h).Load(), h.Store(x) -> h.Store(verifBefore(x)),
+//     h.CompareAndSwap(a, b) -> h.CompareAndSwap(a, verifBefore(b)).
+//     Mutexes (outside the instruction set) are made schedulable: mu.Lock() -> verifLock(mu.TryLock)
+//     (a yield, then a yield-spin on TryLock), mu.Unlock() -> verifUnlock(mu.Unlock).
 package main
 
 import (
@@ -25,477 +38,1239 @@ import (
 	"go/parser"
 	"go/token"
 	"os"
+	"path/filepath"
+	"sort"
 	"strings"
 )
 
-var atomicMethods = map[string]bool{"Load": true, "Store": true, "CompareAndSwap": true, "Swap": true}
+var atomicArity = map[string]int{"Load": 0, "Store": 1, "CompareAndSwap": 2, "Swap": 1}
+var lockNames = map[string]bool{"Lock": true, "Unlock": true, "RLock": true, "RUnlock": true}
+var builtins = map[string]bool{"len": true, "cap": true, "append": true, "make": true, "new": true, "copy": true,
+	"delete": true, "panic": true, "print": true, "println": true, "min": true, "max": true, "clear": true,
+	"string": true, "int": true, "int64": true, "uint64": true, "bool": true, "any": true, "recover": true}
 
-type site struct {
-	call   *ast.CallExpr
-	method string
-	loop   int // pc of the first instruction of the innermost enclosing retry loop; -1: none
-	inCond bool
-	skip   bool // a second spelling of an instruction already listed (reload in a `for !CAS` body)
-	tag    string
+// ---------- abstract values ----------
+type kind int
+
+const (
+	kUnk     kind = iota
+	kHolder       // the holder shared through the context
+	kFresh        // a holder allocated by this very call
+	kLatest       // the pointer loaded by the most recent Load
+	kDerived      // f(latest), computed since the most recent Load
+	kStale        // a pointer loaded earlier, or something derived from one
+	kBool         // a known boolean
+	kFields       // the variadic fields parameter
+	kLevel        // the level parameter
+	kCtx          // the context parameter
+	kClosure      // a function literal
+	kFound        // "the context carries a holder" (b: true) or its negation (b: false)
+)
+
+type aval struct {
+	k   kind
+	tag string // kDerived: FWith | FLevel | a marker
+	b   bool
+	lit *ast.FuncLit
+	fr  *frame
 }
 
-type walker struct {
-	holder   string
-	sites    []site
-	other    []string            // shared-memory constructs the instruction type cannot express
-	locks    []*ast.CallExpr     // mu.Lock() / RLock() / Unlock() / RUnlock() calls
-	defs     map[string]ast.Expr // local variable -> the expression last assigned to it
-	soleExit map[*ast.IfStmt]bool
-	loopDefs map[string]bool      // variables assigned inside the current retry loop (nil: not in one)
-	reload   map[*ast.ForStmt]int // `for !CAS { reload }` loops -> pc of the Load before them
-	pc       int                  // instructions listed so far
-	skipping bool                 // inside the body of a `for !CAS(x, ..) { x = Load() }` loop
+func (v aval) String() string {
+	switch v.k {
+	case kHolder:
+		return "H"
+	case kFresh:
+		return "N"
+	case kLatest:
+		return "L"
+	case kDerived:
+		return "D" + v.tag
+	case kStale:
+		return "S"
+	case kBool:
+		return fmt.Sprintf("B%v", v.b)
+	case kFields:
+		return "F"
+	case kLevel:
+		return "V"
+	case kCtx:
+		return "C"
+	case kClosure:
+		return fmt.Sprintf("K%p", v.lit)
+	case kFound:
+		return fmt.Sprintf("O%v", v.b)
+	}
+	return "?"
 }
 
-// holderVar finds the variable bound to the first result of getOrDefault(...).
-func holderVar(fn *ast.FuncDecl) string {
-	name := ""
-	ast.Inspect(fn.Body, func(n ast.Node) bool {
-		as, ok := n.(*ast.AssignStmt)
-		if !ok || len(as.Rhs) != 1 || name != "" {
-			return true
+type frame struct {
+	id     string
+	parent *frame // lexically enclosing frame (closures)
+}
+
+type env map[string]aval
+
+func (e env) clone() env {
+	c := make(env, len(e))
+	for k, v := range e {
+		c[k] = v
+	}
+	return c
+}
+
+func (e env) digest() string {
+	keys := make([]string, 0, len(e))
+	for k, v := range e {
+		if v.k != kUnk {
+			keys = append(keys, k)
 		}
-		if c, ok := as.Rhs[0].(*ast.CallExpr); ok {
-			if id, ok := c.Fun.(*ast.Ident); ok && id.Name == "getOrDefault" && len(as.Lhs) > 0 {
-				if l, ok := as.Lhs[0].(*ast.Ident); ok {
-					name = l.Name
+	}
+	sort.Strings(keys)
+	var b strings.Builder
+	for _, k := range keys {
+		b.WriteString(k + "=" + e[k].String() + ";")
+	}
+	return b.String()
+}
+
+func lookup(e env, fr *frame, name string) (aval, bool) {
+	for f := fr; f != nil; f = f.parent {
+		if v, ok := e[f.id+"."+name]; ok {
+			return v, true
+		}
+	}
+	return aval{}, false
+}
+
+func assign(e env, fr *frame, name string, v aval, define bool) {
+	if name == "_" {
+		return
+	}
+	if !define {
+		for f := fr; f != nil; f = f.parent {
+			if _, ok := e[f.id+"."+name]; ok {
+				e[f.id+"."+name] = v
+				return
+			}
+		}
+	}
+	e[fr.id+"."+name] = v
+}
+
+// ---------- the package ----------
+type pkgInfo struct {
+	fset    *token.FileSet
+	files   map[string]*ast.File
+	funcs   map[string]*ast.FuncDecl // package-level functions
+	methods map[string]*ast.FuncDecl // methods by name (dropped when two types share the name)
+	holderT map[string]bool          // struct types holding an atomic.Pointer / atomic.Value
+	impure  map[*ast.FuncDecl]bool   // functions that (transitively) perform atomic operations / locking
+	source  map[*ast.FuncDecl]bool   // functions that look the shared holder up in a context
+}
+
+func isAtomicType(t ast.Expr) bool {
+	switch x := t.(type) {
+	case *ast.IndexExpr:
+		return isAtomicType(x.X)
+	case *ast.SelectorExpr:
+		if id, ok := x.X.(*ast.Ident); ok && id.Name == "atomic" {
+			return x.Sel.Name == "Pointer" || x.Sel.Name == "Value"
+		}
+	}
+	return false
+}
+
+func loadPkg(dir string) (*pkgInfo, error) {
+	p := &pkgInfo{fset: token.NewFileSet(), files: map[string]*ast.File{}, funcs: map[string]*ast.FuncDecl{},
+		methods: map[string]*ast.FuncDecl{}, holderT: map[string]bool{}, impure: map[*ast.FuncDecl]bool{},
+		source: map[*ast.FuncDecl]bool{}}
+	ents, err := os.ReadDir(dir)
+	if err != nil {
+		return nil, err
+	}
+	dup := map[string]bool{}
+	for _, en := range ents {
+		n := en.Name()
+		if en.IsDir() || !strings.HasSuffix(n, ".go") || strings.HasSuffix(n, "_test.go") || strings.HasPrefix(n, "zz_verif") {
+			continue
+		}
+		path := filepath.Join(dir, n)
+		f, err := parser.ParseFile(p.fset, path, nil, parser.ParseComments)
+		if err != nil {
+			return nil, err
+		}
+		p.files[path] = f
+		for _, d := range f.Decls {
+			switch x := d.(type) {
+			case *ast.FuncDecl:
+				if x.Body == nil {
+					continue
+				}
+				if x.Recv == nil {
+					p.funcs[x.Name.Name] = x
+				} else if _, seen := p.methods[x.Name.Name]; seen || dup[x.Name.Name] {
+					delete(p.methods, x.Name.Name)
+					dup[x.Name.Name] = true
+				} else {
+					p.methods[x.Name.Name] = x
+				}
+			case *ast.GenDecl:
+				for _, sp := range x.Specs {
+					ts, ok := sp.(*ast.TypeSpec)
+					if !ok {
+						continue
+					}
+					st, ok := ts.Type.(*ast.StructType)
+					if !ok {
+						continue
+					}
+					for _, fl := range st.Fields.List {
+						if isAtomicType(fl.Type) {
+							p.holderT[ts.Name.Name] = true
+						}
+					}
 				}
 			}
+		}
+	}
+	// functions returning *holder and taking a context: they look the shared holder up
+	for _, fn := range p.funcs {
+		if fn.Type.Results == nil || len(fn.Type.Results.List) == 0 || !p.isHolderPtr(fn.Type.Results.List[0].Type) {
+			continue
+		}
+		for _, prm := range fn.Type.Params.List {
+			if sel, ok := prm.Type.(*ast.SelectorExpr); ok && sel.Sel.Name == "Context" {
+				p.source[fn] = true
+			}
+		}
+	}
+	// impure = performs an atomic operation or locks, directly or through a package function
+	for changed := true; changed; {
+		changed = false
+		for _, fn := range p.allFuncs() {
+			if p.impure[fn] || p.source[fn] {
+				continue
+			}
+			if p.nodeImpure(fn.Body) {
+				p.impure[fn] = true
+				changed = true
+			}
+		}
+	}
+	return p, nil
+}
+
+func (p *pkgInfo) allFuncs() []*ast.FuncDecl {
+	var out []*ast.FuncDecl
+	for _, f := range p.funcs {
+		out = append(out, f)
+	}
+	for _, f := range p.methods {
+		out = append(out, f)
+	}
+	sort.Slice(out, func(i, j int) bool { return out[i].Pos() < out[j].Pos() })
+	return out
+}
+
+func (p *pkgInfo) isHolderPtr(t ast.Expr) bool {
+	st, ok := t.(*ast.StarExpr)
+	if !ok {
+		return false
+	}
+	id, ok := st.X.(*ast.Ident)
+	return ok && p.holderT[id.Name]
+}
+
+func atomicCall(c *ast.CallExpr) (string, bool) {
+	sel, ok := c.Fun.(*ast.SelectorExpr)
+	if !ok {
+		return "", false
+	}
+	if n, ok := atomicArity[sel.Sel.Name]; ok && n == len(c.Args) {
+		return sel.Sel.Name, true
+	}
+	return "", false
+}
+
+func lockCall(c *ast.CallExpr) (string, bool) {
+	sel, ok := c.Fun.(*ast.SelectorExpr)
+	if ok && lockNames[sel.Sel.Name] && len(c.Args) == 0 {
+		return sel.Sel.Name, true
+	}
+	return "", false
+}
+
+// callee resolves a call to a function / method of the package (nil: something else).
+func (p *pkgInfo) callee(c *ast.CallExpr) *ast.FuncDecl {
+	switch f := c.Fun.(type) {
+	case *ast.Ident:
+		return p.funcs[f.Name]
+	case *ast.SelectorExpr:
+		if _, isAtomic := atomicCall(c); isAtomic {
+			return nil
+		}
+		if id, ok := f.X.(*ast.Ident); ok && pkgQualifier[id.Name] {
+			return nil
+		}
+		return p.methods[f.Sel.Name]
+	}
+	return nil
+}
+
+// nodeImpure: the syntax tree contains an atomic operation, a lock operation, a call of an
+// impure package function, or a call of a local function value (which may be a closure).
+func (p *pkgInfo) nodeImpure(n ast.Node) bool {
+	if n == nil {
+		return false
+	}
+	found := false
+	ast.Inspect(n, func(m ast.Node) bool {
+		if found {
+			return false
+		}
+		c, ok := m.(*ast.CallExpr)
+		if !ok {
+			return true
+		}
+		if _, ok := atomicCall(c); ok {
+			found = true
+		} else if _, ok := lockCall(c); ok {
+			found = true
+		} else if fn := p.callee(c); fn != nil {
+			if p.impure[fn] || p.source[fn] {
+				found = true
+			}
+		} else if id, ok := c.Fun.(*ast.Ident); ok && !builtins[id.Name] && p.funcs[id.Name] == nil && id.Obj != nil && id.Obj.Kind == ast.Var {
+			found = true // a call through a local function value
+		}
+		return !found
+	})
+	return found
+}
+
+// ---------- symbolic execution ----------
+type target int
+
+const exitT target = -1
+
+type node struct {
+	kind       string // Load Store Cas
+	tag        string
+	succ, fail target
+}
+
+type ctl struct {
+	next     func(env) target
+	brk, cnt func(env) target
+	ret      func(env, []aval) target
+}
+
+type xl struct {
+	p       *pkgInfo
+	root    string
+	nodes   []node
+	memo    map[string]int
+	bad     []string
+	steps   int
+	depth   int
+	fresh   map[*ast.CallExpr]bool // atomic call sites seen on a freshly allocated holder
+	shared  map[*ast.CallExpr]bool // ... seen on the shared (or an unknown) holder
+	stored  []aval                 // values stored into fresh holders
+	nframes int
+	off     int // > 0 while walking a path on which the context carries no holder
+}
+
+const stepLimit = 20000
+
+func (x *xl) unsupported(why string) {
+	if x.off > 0 {
+		return // on a path where the context carries no holder: nothing is shared there
+	}
+	for _, b := range x.bad {
+		if b == why {
+			return
+		}
+	}
+	x.bad = append(x.bad, why)
+}
+
+func (x *xl) tick() bool {
+	x.steps++
+	if x.steps > stepLimit {
+		x.unsupported("analysis budget exceeded (a loop without atomic operations?)")
+		return false
+	}
+	return true
+}
+
+func (x *xl) block(list []ast.Stmt, e env, fr *frame, c ctl) target {
+	if len(list) == 0 {
+		return c.next(e)
+	}
+	rest := c
+	rest.next = func(e2 env) target { return x.block(list[1:], e2, fr, c) }
+	return x.stmt(list[0], e, fr, rest)
+}
+
+// fork: a branch on a value the executor does not know.  Both ways must lead to the same next
+// atomic operation (with the same abstract state), otherwise the sequence of atomic operations
+// depends on data the model does not have.
+// forkFound: a branch on "the context carries a holder".  Only when it does can the holder be
+// shared with other goroutines: the graph is the one of that case.  The other way is walked too
+// (what it does to the fresh default holder is thread-local), but contributes nothing.
+func (x *xl) forkFound(e env, v aval, thenB, elseB func(env) target) target {
+	refine := func(found bool) env {
+		c := e.clone()
+		for key, w := range c {
+			switch {
+			case w.k == kFound:
+				c[key] = aval{k: kBool, b: w.b == found}
+			case w.k == kHolder && !found:
+				c[key] = aval{k: kFresh}
+			}
+		}
+		return c
+	}
+	// v.b: the condition is "found"; !v.b: the condition is "not found"
+	var on, offB func(env) target
+	if v.b {
+		on, offB = thenB, elseB
+	} else {
+		on, offB = elseB, thenB
+	}
+	x.off++
+	offB(refine(false))
+	x.off--
+	return on(refine(true))
+}
+
+func (x *xl) fork(e env, a, b func(env) target, what string) target {
+	t1 := a(e.clone())
+	t2 := b(e.clone())
+	if t1 != t2 {
+		x.unsupported("data-dependent branch around atomic operations (" + what + ")")
+	}
+	return t1
+}
+
+func (x *xl) assignedVars(n ast.Node, e env, fr *frame) {
+	ast.Inspect(n, func(m ast.Node) bool {
+		switch s := m.(type) {
+		case *ast.AssignStmt:
+			for _, l := range s.Lhs {
+				if id, ok := l.(*ast.Ident); ok {
+					assign(e, fr, id.Name, aval{}, false)
+				}
+			}
+		case *ast.IncDecStmt:
+			if id, ok := s.X.(*ast.Ident); ok {
+				assign(e, fr, id.Name, aval{}, false)
+			}
+		case *ast.RangeStmt:
+			for _, l := range []ast.Expr{s.Key, s.Value} {
+				if id, ok := l.(*ast.Ident); ok {
+					assign(e, fr, id.Name, aval{}, false)
+				}
+			}
+		case *ast.FuncLit:
+			return false
 		}
 		return true
 	})
-	return name
 }
 
-// expr visits an expression in Go's evaluation order (operands and arguments before the call).
-func (w *walker) expr(e ast.Expr, loop int, inCond bool) {
-	switch x := e.(type) {
+func hasReturn(n ast.Node) bool {
+	found := false
+	ast.Inspect(n, func(m ast.Node) bool {
+		switch m.(type) {
+		case *ast.ReturnStmt:
+			found = true
+		case *ast.FuncLit:
+			return false
+		}
+		return !found
+	})
+	return found
+}
+
+func (x *xl) stmt(s ast.Stmt, e env, fr *frame, c ctl) target {
+	if !x.tick() {
+		return exitT
+	}
+	switch st := s.(type) {
 	case nil:
-	case *ast.CallExpr:
-		sel, isSel := x.Fun.(*ast.SelectorExpr)
-		if isSel {
-			w.expr(sel.X, loop, inCond)
-		} else {
-			w.expr(x.Fun, loop, inCond)
+		return c.next(e)
+	case *ast.EmptyStmt:
+		return c.next(e)
+	case *ast.ExprStmt:
+		return x.expr(st.X, e, fr, func(_ []aval, e2 env) target { return c.next(e2) })
+	case *ast.AssignStmt:
+		return x.exprs(st.Rhs, e, fr, func(vals []aval, e2 env) target {
+			x.bind(st.Lhs, vals, len(st.Rhs), st.Tok, e2, fr)
+			return c.next(e2)
+		})
+	case *ast.DeclStmt:
+		gd, ok := st.Decl.(*ast.GenDecl)
+		if !ok {
+			return c.next(e)
 		}
-		for _, a := range x.Args {
-			w.expr(a, loop, inCond)
-		}
-		if isSel {
-			if id, ok := sel.X.(*ast.Ident); ok && id.Name == w.holder && atomicMethods[sel.Sel.Name] {
-				tag := ""
-				switch {
-				case sel.Sel.Name == "CompareAndSwap" && len(x.Args) == 2:
-					tag = w.casTag(x)
-				case sel.Sel.Name == "Store" && len(x.Args) == 1:
-					tag = w.fnTag(x.Args[0])
+		var lhs []ast.Expr
+		var rhs []ast.Expr
+		for _, sp := range gd.Specs {
+			if vs, ok := sp.(*ast.ValueSpec); ok {
+				for i, n := range vs.Names {
+					lhs = append(lhs, n)
+					if i < len(vs.Values) {
+						rhs = append(rhs, vs.Values[i])
+					} else {
+						rhs = append(rhs, ast.NewIdent("nil"))
+					}
 				}
-				w.sites = append(w.sites, site{x, sel.Sel.Name, loop, inCond, w.skipping, tag})
-				if !w.skipping {
-					w.pc++
-				}
-			} else if (sel.Sel.Name == "Lock" || sel.Sel.Name == "Unlock" || sel.Sel.Name == "RLock" || sel.Sel.Name == "RUnlock") && len(x.Args) == 0 {
-				// a mutex: outside the instruction set (the tie breaks), but it gets its yields
-				w.other = append(w.other, sel.Sel.Name)
-				w.locks = append(w.locks, x)
 			}
 		}
+		return x.exprs(rhs, e, fr, func(vals []aval, e2 env) target {
+			x.bind(lhs, vals, len(rhs), token.DEFINE, e2, fr)
+			return c.next(e2)
+		})
+	case *ast.IncDecStmt:
+		if id, ok := st.X.(*ast.Ident); ok {
+			assign(e, fr, id.Name, aval{}, false)
+		}
+		return c.next(e)
+	case *ast.BlockStmt:
+		return x.block(st.List, e, fr, c)
+	case *ast.IfStmt:
+		afterInit := c
+		afterInit.next = func(e1 env) target {
+			return x.expr(st.Cond, e1, fr, func(v []aval, e2 env) target {
+				thenB := func(e3 env) target { return x.block(st.Body.List, e3, fr, c) }
+				elseB := func(e3 env) target {
+					if st.Else == nil {
+						return c.next(e3)
+					}
+					return x.stmt(st.Else, e3, fr, c)
+				}
+				if len(v) == 1 && v[0].k == kBool {
+					if v[0].b {
+						return thenB(e2)
+					}
+					return elseB(e2)
+				}
+				if len(v) == 1 && v[0].k == kFound {
+					return x.forkFound(e2, v[0], thenB, elseB)
+				}
+				return x.fork(e2, thenB, elseB, "if "+src(st.Cond))
+			})
+		}
+		return x.stmt(st.Init, e, fr, afterInit)
+	case *ast.ForStmt:
+		var iter func(env) target
+		post := func(e1 env) target {
+			pc := c
+			pc.next = iter
+			pc.brk, pc.cnt = nil, nil
+			return x.stmt(st.Post, e1, fr, pc)
+		}
+		body := func(e1 env) target {
+			bc := ctl{next: post, brk: c.next, cnt: post, ret: c.ret}
+			return x.block(st.Body.List, e1, fr, bc)
+		}
+		iter = func(e1 env) target {
+			if !x.tick() {
+				return exitT
+			}
+			if st.Cond == nil {
+				return body(e1)
+			}
+			return x.expr(st.Cond, e1, fr, func(v []aval, e2 env) target {
+				if len(v) == 1 && v[0].k == kBool {
+					if v[0].b {
+						return body(e2)
+					}
+					return c.next(e2)
+				}
+				if !x.p.nodeImpure(st.Body) && !hasReturn(st.Body) {
+					// a loop over thread-local data: what it assigns is not known afterwards
+					x.assignedVars(st, e2, fr)
+					return c.next(e2)
+				}
+				return x.fork(e2, body, c.next, "for "+src(st.Cond))
+			})
+		}
+		ic := c
+		ic.next = iter
+		ic.brk, ic.cnt = nil, nil
+		return x.stmt(st.Init, e, fr, ic)
+	case *ast.RangeStmt:
+		if x.p.nodeImpure(st.Body) || x.p.nodeImpure(st.X) || hasReturn(st.Body) {
+			x.unsupported("range loop around atomic operations")
+		}
+		x.assignedVars(st, e, fr)
+		return c.next(e)
+	case *ast.BranchStmt:
+		if st.Label != nil {
+			x.unsupported("labelled " + st.Tok.String())
+			return exitT
+		}
+		switch st.Tok {
+		case token.BREAK:
+			if c.brk != nil {
+				return c.brk(e)
+			}
+		case token.CONTINUE:
+			if c.cnt != nil {
+				return c.cnt(e)
+			}
+		}
+		x.unsupported(st.Tok.String() + " outside a for loop")
+		return exitT
+	case *ast.ReturnStmt:
+		return x.exprs(st.Results, e, fr, func(vals []aval, e2 env) target { return c.ret(e2, vals) })
+	case *ast.DeferStmt:
+		if x.p.nodeImpure(st.Call) {
+			x.unsupported("defer of an atomic / lock operation")
+		}
+		return c.next(e)
+	case *ast.GoStmt:
+		if x.p.nodeImpure(st.Call) {
+			x.unsupported("go statement")
+		}
+		return c.next(e)
+	case *ast.LabeledStmt:
+		if x.p.nodeImpure(st.Stmt) {
+			x.unsupported("labelled statement around atomic operations")
+		}
+		return x.stmt(st.Stmt, e, fr, c)
+	case *ast.SwitchStmt, *ast.TypeSwitchStmt, *ast.SelectStmt:
+		if x.p.nodeImpure(st) || hasReturn(st) {
+			x.unsupported(fmt.Sprintf("%T around atomic operations or returns", st))
+		}
+		x.assignedVars(st, e, fr)
+		return c.next(e)
+	case *ast.SendStmt:
+		x.unsupported("channel send")
+		return c.next(e)
+	}
+	x.unsupported(fmt.Sprintf("statement %T", s))
+	return c.next(e)
+}
+
+func src(n ast.Node) string {
+	var b bytes.Buffer
+	format.Node(&b, token.NewFileSet(), n)
+	s := b.String()
+	if len(s) > 60 {
+		s = s[:60] + "..."
+	}
+	return strings.ReplaceAll(strings.ReplaceAll(s, "(*", "( *"), "*)", "* )")
+}
+
+func (x *xl) bind(lhs []ast.Expr, vals []aval, nrhs int, tok token.Token, e env, fr *frame) {
+	for i, l := range lhs {
+		id, ok := l.(*ast.Ident)
+		if !ok {
+			continue
+		}
+		v := aval{}
+		if tok == token.ASSIGN || tok == token.DEFINE {
+			if len(lhs) == nrhs && i < len(vals) {
+				v = vals[i]
+			} else if nrhs == 1 && i < len(vals) && len(vals) == len(lhs) {
+				v = vals[i] // a, b := f()
+			}
+		}
+		assign(e, fr, id.Name, v, tok == token.DEFINE)
+	}
+}
+
+// exprs evaluates expressions left to right; a single call with several results yields them all.
+func (x *xl) exprs(list []ast.Expr, e env, fr *frame, k func([]aval, env) target) target {
+	if len(list) == 1 {
+		return x.expr(list[0], e, fr, k)
+	}
+	var go1 func(i int, acc []aval, e1 env) target
+	go1 = func(i int, acc []aval, e1 env) target {
+		if i == len(list) {
+			return k(acc, e1)
+		}
+		return x.expr(list[i], e1, fr, func(v []aval, e2 env) target {
+			one := aval{}
+			if len(v) >= 1 {
+				one = v[0]
+			}
+			return go1(i+1, append(append([]aval(nil), acc...), one), e2)
+		})
+	}
+	return go1(0, nil, e)
+}
+
+func minInt(a, b int) int {
+	if a < b {
+		return a
+	}
+	return b
+}
+
+func first(v []aval) aval {
+	if len(v) == 0 {
+		return aval{}
+	}
+	return v[0]
+}
+
+// expr evaluates one expression in Go's order, creating graph nodes for the atomic operations in it.
+func (x *xl) expr(ex ast.Expr, e env, fr *frame, k func([]aval, env) target) target {
+	if ex == nil {
+		return k(nil, e)
+	}
+	if !x.p.nodeImpure(ex) {
+		return k([]aval{x.abs(ex, e, fr, 0)}, e)
+	}
+	switch t := ex.(type) {
 	case *ast.ParenExpr:
-		w.expr(x.X, loop, inCond)
+		return x.expr(t.X, e, fr, k)
 	case *ast.UnaryExpr:
-		if x.Op == token.ARROW {
-			w.other = append(w.other, "chan-receive")
+		if t.Op == token.ARROW {
+			x.unsupported("channel receive")
 		}
-		w.expr(x.X, loop, inCond)
-	case *ast.BinaryExpr:
-		w.expr(x.X, loop, inCond)
-		w.expr(x.Y, loop, inCond)
-	case *ast.SelectorExpr:
-		w.expr(x.X, loop, inCond)
-	case *ast.StarExpr:
-		w.expr(x.X, loop, inCond)
-	case *ast.IndexExpr:
-		w.expr(x.X, loop, inCond)
-		w.expr(x.Index, loop, inCond)
-	case *ast.CompositeLit:
-		for _, el := range x.Elts {
-			w.expr(el, loop, inCond)
-		}
-	case *ast.KeyValueExpr:
-		w.expr(x.Value, loop, inCond)
-	case *ast.FuncLit:
-		w.other = append(w.other, "func-literal")
-		w.stmts(x.Body.List, -1)
-	case *ast.TypeAssertExpr:
-		w.expr(x.X, loop, inCond)
-	}
-}
-
-func (w *walker) stmts(list []ast.Stmt, loop int) {
-	for i, s := range list {
-		if i+1 < len(list) {
-			if f, ok := list[i+1].(*ast.ForStmt); ok && w.reloadLoop(s, f) {
-				// x := lh.Load(); for !lh.CompareAndSwap(x, F(x)) { x = lh.Load() }
-				// performs Load, CAS, (Load, CAS)*: the same atomic-operation sequence as
-				// for { x := lh.Load(); if lh.CompareAndSwap(x, F(x)) { break } }
-				w.reload[f] = w.pc
+		return x.expr(t.X, e, fr, func(v []aval, e2 env) target {
+			r := aval{}
+			if t.Op == token.NOT && (first(v).k == kBool || first(v).k == kFound) {
+				r = aval{k: first(v).k, b: !first(v).b}
 			}
-		}
-		w.stmt(s, loop)
+			return k([]aval{r}, e2)
+		})
+	case *ast.BinaryExpr:
+		return x.expr(t.X, e, fr, func(v []aval, e2 env) target {
+			l := first(v)
+			if t.Op == token.LAND || t.Op == token.LOR {
+				if l.k == kBool && l.b == (t.Op == token.LOR) {
+					return k([]aval{l}, e2) // short-circuit
+				}
+				if l.k != kBool && x.p.nodeImpure(t.Y) {
+					x.unsupported("atomic operation under a data-dependent && / ||")
+				}
+				return x.expr(t.Y, e2, fr, func(w []aval, e3 env) target {
+					if l.k == kBool {
+						return k([]aval{first(w)}, e3)
+					}
+					return k([]aval{{}}, e3)
+				})
+			}
+			return x.expr(t.Y, e2, fr, func(_ []aval, e3 env) target { return k([]aval{{}}, e3) })
+		})
+	case *ast.CallExpr:
+		return x.call(t, e, fr, k)
+	case *ast.SelectorExpr:
+		return x.expr(t.X, e, fr, func(_ []aval, e2 env) target { return k([]aval{{}}, e2) })
+	case *ast.StarExpr:
+		return x.expr(t.X, e, fr, func(_ []aval, e2 env) target { return k([]aval{{}}, e2) })
+	case *ast.TypeAssertExpr:
+		return x.expr(t.X, e, fr, func(_ []aval, e2 env) target { return k([]aval{{}}, e2) })
+	case *ast.IndexExpr:
+		return x.exprs([]ast.Expr{t.X, t.Index}, e, fr, func(_ []aval, e2 env) target { return k([]aval{{}}, e2) })
+	case *ast.KeyValueExpr:
+		return x.expr(t.Value, e, fr, k)
+	case *ast.CompositeLit:
+		return x.exprs(t.Elts, e, fr, func(_ []aval, e2 env) target { return k([]aval{x.abs(ex, e2, fr, 0)}, e2) })
 	}
+	x.unsupported(fmt.Sprintf("atomic operation inside %T", ex))
+	return k([]aval{{}}, e)
 }
 
-func (w *walker) holderCall(e ast.Expr, method string) *ast.CallExpr {
-	c, ok := e.(*ast.CallExpr)
-	if !ok {
+func (x *xl) newNode(site *ast.CallExpr, kindS, tag string, e env, fr *frame) (int, bool) {
+	key := fmt.Sprintf("%p|%s|%s|%s|%s", site, fr.id, kindS, tag, e.digest())
+	if id, ok := x.memo[key]; ok {
+		return id, false
+	}
+	id := len(x.nodes)
+	x.nodes = append(x.nodes, node{kind: kindS, tag: tag, succ: exitT, fail: exitT})
+	x.memo[key] = id
+	return id, true
+}
+
+func (x *xl) call(c *ast.CallExpr, e env, fr *frame, k func([]aval, env) target) target {
+	if !x.tick() {
+		return exitT
+	}
+	if m, ok := atomicCall(c); ok {
+		sel := c.Fun.(*ast.SelectorExpr)
+		return x.expr(sel.X, e, fr, func(rv []aval, e1 env) target {
+			return x.exprs(c.Args, e1, fr, func(args []aval, e2 env) target {
+				recv := first(rv)
+				if recv.k == kFresh {
+					// thread-local: nobody else can see this holder yet
+					x.fresh[c] = true
+					if m == "Store" && x.off == 0 {
+						x.stored = append(x.stored, first(args))
+					}
+					r := aval{}
+					if m == "CompareAndSwap" {
+						r = aval{} // unknown, and irrelevant for the shared holder
+					}
+					return k([]aval{r}, e2)
+				}
+				x.shared[c] = true
+				if recv.k != kHolder {
+					x.unsupported("atomic " + m + " on " + src(sel.X) + ", which is not known to be the context's holder")
+				}
+				switch m {
+				case "Load":
+					e3 := e2.clone()
+					for key, v := range e3 {
+						if v.k == kLatest || v.k == kDerived {
+							e3[key] = aval{k: kStale}
+						}
+					}
+					id, isNew := x.newNode(c, "Load", "", e3, fr)
+					if isNew {
+						x.nodes[id].succ = k([]aval{{k: kLatest}}, e3)
+					}
+					return target(id)
+				case "Store":
+					tag := x.fnTag(first(args))
+					id, isNew := x.newNode(c, "Store", tag, e2, fr)
+					if isNew {
+						x.nodes[id].succ = k([]aval{{}}, e2.clone())
+					}
+					return target(id)
+				case "CompareAndSwap":
+					tag := x.fnTag(args[1])
+					if args[0].k != kLatest {
+						tag = "FComparedValueIsNotThePointerLoadedLast"
+					}
+					id, isNew := x.newNode(c, "Cas", tag, e2, fr)
+					if isNew {
+						x.nodes[id].succ = k([]aval{{k: kBool, b: true}}, e2.clone())
+						x.nodes[id].fail = k([]aval{{k: kBool, b: false}}, e2.clone())
+					}
+					return target(id)
+				}
+				x.unsupported("atomic " + m)
+				return k([]aval{{}}, e2)
+			})
+		})
+	}
+	if m, ok := lockCall(c); ok {
+		x.unsupported("mutex " + m)
+		return k([]aval{{}}, e)
+	}
+	// a package function / method, or a local function value
+	var recvX ast.Expr
+	var decl *ast.FuncDecl
+	var lit *ast.FuncLit
+	var litFr *frame
+	switch f := c.Fun.(type) {
+	case *ast.Ident:
+		if v, ok := lookup(e, fr, f.Name); ok && v.k == kClosure {
+			lit, litFr = v.lit, v.fr
+		} else {
+			decl = x.p.funcs[f.Name]
+		}
+	case *ast.SelectorExpr:
+		if id, ok := f.X.(*ast.Ident); !ok || !pkgQualifier[id.Name] {
+			recvX = f.X
+		}
+	case *ast.FuncLit:
+		lit, litFr = f, fr
+	}
+	if decl != nil && x.p.source[decl] {
+		// looks the shared holder up in the context: (holder, found)
+		return x.exprs(c.Args, e, fr, func(_ []aval, e2 env) target {
+			out := []aval{{k: kHolder}}
+			for i := 1; decl.Type.Results != nil && i < decl.Type.Results.NumFields(); i++ {
+				v := aval{}
+				if id, ok := decl.Type.Results.List[minInt(i, len(decl.Type.Results.List)-1)].Type.(*ast.Ident); ok && id.Name == "bool" {
+					v = aval{k: kFound, b: true}
+				}
+				out = append(out, v)
+			}
+			return k(out, e2)
+		})
+	}
+	evalRecv := func(e1 env, kk func(aval, env) target) target {
+		if recvX == nil {
+			return kk(aval{}, e1)
+		}
+		return x.expr(recvX, e1, fr, func(v []aval, e2 env) target { return kk(first(v), e2) })
+	}
+	return evalRecv(e, func(rv aval, e1 env) target {
+		return x.exprs(c.Args, e1, fr, func(args []aval, e2 env) target {
+			if len(c.Args) == 1 && len(args) > 1 {
+				// f(g()) with a multi-valued g: not needed here
+				args = args[:1]
+			}
+			if recvX != nil {
+				decl = x.p.holderMethod(c, rv)
+			}
+			switch {
+			case decl != nil && x.p.impure[decl]:
+				return x.inline(decl.Name.Name, decl.Recv, decl.Type, decl.Body, nil, rv, args, c, e2, fr, k)
+			case lit != nil:
+				return x.inline("func", nil, lit.Type, lit.Body, litFr, aval{}, args, c, e2, fr, k)
+			}
+			return k([]aval{x.absCallVals(c, rv, args, e2, fr, 0)}, e2)
+		})
+	})
+}
+
+var pkgQualifier = map[string]bool{"zap": true, "zapcore": true, "context": true, "atomic": true, "zaptest": true,
+	"sync": true, "fmt": true, "runtime": true, "testing": true}
+
+// holderMethod resolves recv.m(..) to a method of the package declared on a holder type, when
+// the receiver is a holder (go/ast has no types: other receivers are taken for foreign calls).
+func (p *pkgInfo) holderMethod(c *ast.CallExpr, recv aval) *ast.FuncDecl {
+	if recv.k != kHolder && recv.k != kFresh {
 		return nil
 	}
 	sel, ok := c.Fun.(*ast.SelectorExpr)
-	if !ok || sel.Sel.Name != method {
+	if !ok {
 		return nil
 	}
-	if id, ok := sel.X.(*ast.Ident); !ok || id.Name != w.holder {
+	d := p.methods[sel.Sel.Name]
+	if d == nil || d.Recv == nil || len(d.Recv.List) != 1 {
 		return nil
 	}
-	return c
+	t := d.Recv.List[0].Type
+	if st, ok := t.(*ast.StarExpr); ok {
+		t = st.X
+	}
+	if id, ok := t.(*ast.Ident); ok && p.holderT[id.Name] {
+		return d
+	}
+	return nil
 }
 
-// reloadLoop recognises  x := lh.Load()  followed by  for !lh.CompareAndSwap(x, ..) { x = lh.Load() }.
-func (w *walker) reloadLoop(pre ast.Stmt, f *ast.ForStmt) bool {
-	as, ok := pre.(*ast.AssignStmt)
-	if !ok || len(as.Lhs) != 1 || len(as.Rhs) != 1 || w.holderCall(as.Rhs[0], "Load") == nil {
-		return false
+// inline executes a callee body in a frame of its own and hands its results to k.
+func (x *xl) inline(name string, recv *ast.FieldList, typ *ast.FuncType, body *ast.BlockStmt, parent *frame,
+	rv aval, args []aval, site *ast.CallExpr, e env, caller *frame, k func([]aval, env) target) target {
+	if x.depth > 12 {
+		x.unsupported("call depth (recursion?) at " + name)
+		return k([]aval{{}}, e)
 	}
-	x, ok := as.Lhs[0].(*ast.Ident)
-	if !ok || f.Init != nil || f.Post != nil || f.Cond == nil || len(f.Body.List) != 1 {
-		return false
-	}
-	not, ok := f.Cond.(*ast.UnaryExpr)
-	if !ok || not.Op != token.NOT {
-		return false
-	}
-	cas := w.holderCall(not.X, "CompareAndSwap")
-	if cas == nil || len(cas.Args) != 2 {
-		return false
-	}
-	if old, ok := cas.Args[0].(*ast.Ident); !ok || old.Name != x.Name {
-		return false
-	}
-	re, ok := f.Body.List[0].(*ast.AssignStmt)
-	if !ok || re.Tok != token.ASSIGN || len(re.Lhs) != 1 || len(re.Rhs) != 1 || w.holderCall(re.Rhs[0], "Load") == nil {
-		return false
-	}
-	y, ok := re.Lhs[0].(*ast.Ident)
-	return ok && y.Name == x.Name
-}
-
-func (w *walker) stmt(s ast.Stmt, loop int) {
-	switch x := s.(type) {
-	case nil:
-	case *ast.ExprStmt:
-		w.expr(x.X, loop, false)
-	case *ast.AssignStmt:
-		for _, r := range x.Rhs {
-			w.expr(r, loop, false)
-		}
-		if len(x.Lhs) == len(x.Rhs) {
-			for i, l := range x.Lhs {
-				if id, ok := l.(*ast.Ident); ok {
-					w.defs[id.Name] = x.Rhs[i]
-					if w.loopDefs != nil {
-						w.loopDefs[id.Name] = true
-					}
-				}
+	x.nframes++
+	fr := &frame{id: fmt.Sprintf("%s>%s@%d", caller.id, name, site.Pos()), parent: parent}
+	bindParams(typ, recv, rv, args, site.Ellipsis.IsValid(), e, fr)
+	finish := func(e1 env, vals []aval) target {
+		pre := fr.id + "."
+		for key := range e1 {
+			if strings.HasPrefix(key, pre) {
+				delete(e1, key)
 			}
 		}
-	case *ast.DeclStmt:
-		if gd, ok := x.Decl.(*ast.GenDecl); ok {
-			for _, sp := range gd.Specs {
-				if vs, ok := sp.(*ast.ValueSpec); ok {
-					for _, v := range vs.Values {
-						w.expr(v, loop, false)
-					}
-				}
+		if vals == nil {
+			n := 0
+			if typ.Results != nil {
+				n = typ.Results.NumFields()
 			}
+			vals = make([]aval, n)
 		}
-	case *ast.ReturnStmt:
-		for _, r := range x.Results {
-			w.expr(r, loop, false)
-		}
-	case *ast.IfStmt:
-		// the guard of a retry loop: `if CAS(..) { break }` or `if ok := CAS(..); ok { break }`,
-		// and only when leaving through this `if` is the loop's sole exit
-		guard := loop >= 0 && w.soleExit[x]
-		if as, ok := x.Init.(*ast.AssignStmt); ok && guard {
-			if _, isIdent := x.Cond.(*ast.Ident); isIdent {
-				for _, r := range as.Rhs {
-					w.expr(r, loop, true)
-				}
-			} else {
-				w.stmt(x.Init, loop)
-			}
-		} else {
-			w.stmt(x.Init, loop)
-		}
-		w.expr(x.Cond, loop, guard)
-		w.stmts(x.Body.List, loop)
-		w.stmt(x.Else, loop)
-	case *ast.BlockStmt:
-		w.stmts(x.List, loop)
-	case *ast.ForStmt:
-		if start, ok := w.reload[x]; ok {
-			// the loaded variable counts as assigned in the loop; the new value must be an
-			// expression over it written in the condition itself (evaluated on every attempt)
-			not := x.Cond.(*ast.UnaryExpr)
-			old := w.holderCall(not.X, "CompareAndSwap").Args[0].(*ast.Ident)
-			saved := w.loopDefs
-			w.loopDefs = map[string]bool{old.Name: true}
-			w.expr(x.Cond, start, true) // the CAS: on failure back to the (re)Load
-			w.loopDefs = saved
-			w.skipping = true // the reload is the Load already listed at `start`
-			w.stmts(x.Body.List, start)
-			w.skipping = false
-			return
-		}
-		w.stmt(x.Init, loop)
-		if x.Cond != nil {
-			// not a spelling of the retry loop: the instruction list cannot express it (the tie
-			// breaks), but every atomic call in it is still found, so that it gets its yield
-			w.other = append(w.other, "for-with-condition")
-			w.expr(x.Cond, -1, false)
-		}
-		w.markSoleExit(x)
-		saved := w.loopDefs
-		w.loopDefs = map[string]bool{}
-		w.stmts(x.Body.List, w.pc)
-		w.loopDefs = saved
-		w.stmt(x.Post, loop)
-	case *ast.RangeStmt:
-		w.other = append(w.other, "range")
-		w.expr(x.X, loop, false)
-		w.stmts(x.Body.List, -1)
-	case *ast.GoStmt:
-		w.other = append(w.other, "go")
-		w.expr(x.Call, -1, false)
-	case *ast.DeferStmt:
-		w.other = append(w.other, "defer")
-		w.expr(x.Call, -1, false)
-	case *ast.SendStmt:
-		w.other = append(w.other, "chan-send")
-		w.expr(x.Value, loop, false)
-	case *ast.SelectStmt:
-		w.other = append(w.other, "select")
-		w.stmts(x.Body.List, -1)
-	case *ast.CommClause:
-		w.stmt(x.Comm, -1)
-		w.stmts(x.Body, -1)
-	case *ast.SwitchStmt:
-		w.other = append(w.other, "switch")
-		w.stmt(x.Init, loop)
-		w.expr(x.Tag, loop, false)
-		w.stmts(x.Body.List, -1)
-	case *ast.TypeSwitchStmt:
-		w.other = append(w.other, "type-switch")
-		w.stmts(x.Body.List, -1)
-	case *ast.CaseClause:
-		for _, e := range x.List {
-			w.expr(e, -1, false)
-		}
-		w.stmts(x.Body, -1)
-	case *ast.LabeledStmt:
-		w.stmt(x.Stmt, loop)
-	case *ast.IncDecStmt:
-		w.expr(x.X, loop, false)
+		x.depth--
+		defer func() { x.depth++ }()
+		return k(vals, e1)
 	}
-}
-
-// exits counts the break / return statements of a loop body (not those of nested loops,
-// switches or function literals).
-func exits(n ast.Node) int {
-	c := 0
-	ast.Inspect(n, func(m ast.Node) bool {
-		switch y := m.(type) {
-		case *ast.ForStmt, *ast.RangeStmt, *ast.SwitchStmt, *ast.TypeSwitchStmt, *ast.SelectStmt, *ast.FuncLit:
-			return m == n
-		case *ast.BranchStmt:
-			if y.Tok == token.BREAK || y.Tok == token.GOTO {
-				c++
-			}
-		case *ast.ReturnStmt:
-			c++
-		}
-		return true
+	x.depth++
+	defer func() { x.depth-- }()
+	return x.block(body.List, e, fr, ctl{
+		next: func(e1 env) target { return finish(e1, nil) },
+		ret:  func(e1 env, vals []aval) target { return finish(e1, vals) },
 	})
-	return c
 }
 
-// markSoleExit records the top-level `if` statements of a `for {}` body through which alone
-// the loop can be left (their body ends in break/return and holds every exit of the loop).
-func (w *walker) markSoleExit(f *ast.ForStmt) {
-	total := exits(f.Body)
-	// for { x := Load(); if !CAS(x, ..) { continue }; break }  — the negated guard
-	if n := len(f.Body.List); n >= 2 && total == 1 {
-		last := f.Body.List[n-1]
-		_, isRet := last.(*ast.ReturnStmt)
-		br, isBr := last.(*ast.BranchStmt)
-		if ifs, ok := f.Body.List[n-2].(*ast.IfStmt); ok && (isRet || (isBr && br.Tok == token.BREAK)) &&
-			ifs.Else == nil && ifs.Init == nil && len(ifs.Body.List) == 1 {
-			if not, ok := ifs.Cond.(*ast.UnaryExpr); ok && not.Op == token.NOT {
-				if c, ok := ifs.Body.List[0].(*ast.BranchStmt); ok && c.Tok == token.CONTINUE && c.Label == nil {
-					w.soleExit[ifs] = true
+func bindParams(typ *ast.FuncType, recv *ast.FieldList, rv aval, args []aval, ellipsis bool, e env, fr *frame) {
+	if recv != nil && len(recv.List) == 1 && len(recv.List[0].Names) == 1 {
+		e[fr.id+"."+recv.List[0].Names[0].Name] = rv
+	}
+	i := 0
+	for _, f := range typ.Params.List {
+		_, variadic := f.Type.(*ast.Ellipsis)
+		for _, n := range f.Names {
+			v := aval{}
+			if variadic {
+				if ellipsis && i == len(args)-1 {
+					v = args[i]
 				}
+			} else if i < len(args) {
+				v = args[i]
 			}
-		}
-	}
-	for _, s := range f.Body.List {
-		ifs, ok := s.(*ast.IfStmt)
-		if !ok || ifs.Else != nil || len(ifs.Body.List) == 0 {
-			continue
-		}
-		last := ifs.Body.List[len(ifs.Body.List)-1]
-		_, isRet := last.(*ast.ReturnStmt)
-		br, isBr := last.(*ast.BranchStmt)
-		if (isRet || (isBr && br.Tok == token.BREAK)) && exits(ifs.Body) == total {
-			w.soleExit[ifs] = true
+			e[fr.id+"."+n.Name] = v
+			i++
 		}
 	}
 }
 
-// casTag names the pure function of a CompareAndSwap in a retry loop.  The new value must be
-// derived, inside the loop (on every attempt), from the very pointer that is compared: a value
-// computed before the loop, or from something else, is a different program (a retry would
-// install a logger derived from a stale snapshot).
-func (w *walker) casTag(c *ast.CallExpr) string {
-	old, ok := c.Args[0].(*ast.Ident)
-	if !ok || w.loopDefs == nil || !w.loopDefs[old.Name] {
-		return "FComparedValueNotLoadedInLoop"
-	}
-	e := c.Args[1]
-	for i := 0; i < 4; i++ {
-		id, ok := e.(*ast.Ident)
-		if !ok {
-			break
-		}
-		if !w.loopDefs[id.Name] {
-			return "FNewValueComputedOutsideLoop"
-		}
-		d, ok := w.defs[id.Name]
-		if !ok {
-			break
-		}
-		e = d
-	}
-	mentions := false
-	ast.Inspect(e, func(n ast.Node) bool {
-		if id, ok := n.(*ast.Ident); ok && id.Name == old.Name {
-			mentions = true
-		}
-		return true
-	})
-	if !mentions {
-		return "FNewValueNotFromLoaded"
-	}
-	return w.fnTag(e)
-}
-
-// fnTag names the pure function whose result is stored: the new logger expression (a local
-// variable is followed to the expression assigned to it).
-func (w *walker) fnTag(e ast.Expr) string {
-	for i := 0; i < 4; i++ {
-		id, ok := e.(*ast.Ident)
-		if !ok {
-			break
-		}
-		d, ok := w.defs[id.Name]
-		if !ok {
-			break
-		}
-		e = d
-	}
-	var b bytes.Buffer
-	format.Node(&b, token.NewFileSet(), e)
-	s := b.String()
-	switch {
-	case strings.Contains(s, "CustomLevelLogger(") && !strings.Contains(s, ".With("):
-		return "FLevel"
-	case strings.Contains(s, ".With(") && !strings.Contains(s, "CustomLevelLogger("):
-		return "FWith"
+func (x *xl) fnTag(v aval) string {
+	switch v.k {
+	case kDerived:
+		return v.tag
+	case kStale:
+		return "FNewValueDerivedFromAStalePointer"
+	case kLatest:
+		return "FNewValueIsTheLoadedPointerItself"
 	}
 	return "FUnknown"
 }
 
-func instrs(w *walker) []string {
-	var out []string
-	for _, st := range w.sites {
-		if st.skip {
-			continue
+// abs evaluates an expression without atomic operations to an abstract value.
+func (x *xl) abs(ex ast.Expr, e env, fr *frame, depth int) aval {
+	if depth > 8 {
+		return aval{}
+	}
+	switch t := ex.(type) {
+	case *ast.Ident:
+		switch t.Name {
+		case "true":
+			return aval{k: kBool, b: true}
+		case "false":
+			return aval{k: kBool, b: false}
 		}
-		switch st.method {
-		case "Load":
-			out = append(out, "ILoad")
-		case "Store":
-			out = append(out, "IStore "+st.tag)
-		case "CompareAndSwap":
-			if st.loop >= 0 && st.inCond {
-				out = append(out, fmt.Sprintf("ICas %s %d", st.tag, st.loop))
-			} else {
-				out = append(out, "ICasOutsideRetryLoop "+st.tag)
+		if v, ok := lookup(e, fr, t.Name); ok {
+			return v
+		}
+	case *ast.ParenExpr:
+		return x.abs(t.X, e, fr, depth)
+	case *ast.UnaryExpr:
+		v := x.abs(t.X, e, fr, depth)
+		if t.Op == token.NOT && (v.k == kBool || v.k == kFound) {
+			return aval{k: v.k, b: !v.b}
+		}
+		if t.Op == token.AND {
+			if cl, ok := t.X.(*ast.CompositeLit); ok {
+				if id, ok := cl.Type.(*ast.Ident); ok && x.p.holderT[id.Name] {
+					return aval{k: kFresh}
+				}
 			}
-		default:
-			out = append(out, "IUnsupported_"+st.method)
 		}
+	case *ast.BinaryExpr:
+		l, r := x.abs(t.X, e, fr, depth), x.abs(t.Y, e, fr, depth)
+		if l.k == kBool && r.k == kBool {
+			switch t.Op {
+			case token.LAND:
+				return aval{k: kBool, b: l.b && r.b}
+			case token.LOR:
+				return aval{k: kBool, b: l.b || r.b}
+			case token.EQL:
+				return aval{k: kBool, b: l.b == r.b}
+			case token.NEQ:
+				return aval{k: kBool, b: l.b != r.b}
+			}
+		}
+		if l.k == kBool && ((t.Op == token.LAND && !l.b) || (t.Op == token.LOR && l.b)) {
+			return l
+		}
+	case *ast.FuncLit:
+		return aval{k: kClosure, lit: t, fr: fr}
+	case *ast.CallExpr:
+		return x.absCall(t, e, fr, depth)
 	}
-	for _, o := range w.other {
-		out = append(out, "IUnsupported (* "+o+" *)")
-	}
-	return out
+	return aval{}
 }
 
-func main() {
-	src := flag.String("src", "", "path of log/context_utils.go")
-	gen := flag.String("gen", "", "write the Gallina program table here")
-	instrument := flag.Bool("instrument", false, "rewrite the source in place with scheduler hooks")
-	flag.Parse()
-	fset := token.NewFileSet()
-	f, err := parser.ParseFile(fset, *src, nil, parser.ParseComments)
-	if err != nil {
-		fmt.Fprintln(os.Stderr, err)
-		os.Exit(1)
+func (x *xl) absCall(c *ast.CallExpr, e env, fr *frame, depth int) aval {
+	args := make([]aval, len(c.Args))
+	for i, a := range c.Args {
+		args[i] = x.abs(a, e, fr, depth)
 	}
-	progs := map[string][]string{}
-	nsites := 0
-	for _, d := range f.Decls {
-		fn, ok := d.(*ast.FuncDecl)
-		if !ok || fn.Recv != nil || fn.Body == nil || (fn.Name.Name != "WithFields" && fn.Name.Name != "SetLevel") {
-			continue
+	recv := aval{}
+	if f, ok := c.Fun.(*ast.SelectorExpr); ok {
+		if id, ok := f.X.(*ast.Ident); !ok || !pkgQualifier[id.Name] {
+			recv = x.abs(f.X, e, fr, depth)
 		}
-		w := &walker{holder: holderVar(fn), defs: map[string]ast.Expr{}, soleExit: map[*ast.IfStmt]bool{},
-			reload: map[*ast.ForStmt]int{}}
-		w.stmts(fn.Body.List, -1)
-		progs[fn.Name.Name] = instrs(w)
-		if *instrument {
-			for _, st := range w.sites {
-				nsites++
-				hook := func(e ast.Expr) ast.Expr {
-					return &ast.CallExpr{Fun: ast.NewIdent("verifBefore"), Args: []ast.Expr{e}}
-				}
-				if n := len(st.call.Args); n > 0 {
-					st.call.Args[n-1] = hook(st.call.Args[n-1])
+	}
+	return x.absCallVals(c, recv, args, e, fr, depth)
+}
+
+// absCallVals: the abstract result of a call without atomic operations, given its receiver and arguments.
+func (x *xl) absCallVals(c *ast.CallExpr, recv aval, args []aval, e env, fr *frame, depth int) aval {
+	switch f := c.Fun.(type) {
+	case *ast.SelectorExpr:
+		if f.Sel.Name == "With" && (recv.k == kLatest || recv.k == kStale) {
+			if recv.k == kStale {
+				return aval{k: kStale}
+			}
+			if len(args) == 1 && c.Ellipsis.IsValid() && args[0].k == kFields {
+				return aval{k: kDerived, tag: "FWith"}
+			}
+			return aval{k: kDerived, tag: "FWithOfSomethingElseThanTheFieldsGiven"}
+		}
+		if decl := x.p.holderMethod(c, recv); decl != nil && !x.p.impure[decl] && !x.p.source[decl] {
+			return x.absInline(decl.Recv, decl.Type, decl.Body, nil, recv, args, c.Ellipsis.IsValid(), e, depth)
+		}
+	case *ast.Ident:
+		if f.Name == "CustomLevelLogger" && len(args) == 2 {
+			switch {
+			case args[0].k == kStale:
+				return aval{k: kStale}
+			case args[0].k == kLatest && args[1].k == kLevel:
+				return aval{k: kDerived, tag: "FLevel"}
+			case args[0].k == kLatest:
+				return aval{k: kDerived, tag: "FLevelOfSomethingElseThanTheLevelGiven"}
+			}
+			return aval{}
+		}
+		if v, ok := lookup(e, fr, f.Name); ok && v.k == kClosure {
+			return x.absInline(nil, v.lit.Type, v.lit.Body, v.fr, aval{}, args, c.Ellipsis.IsValid(), e, depth)
+		}
+		if decl := x.p.funcs[f.Name]; decl != nil && !x.p.impure[decl] && !x.p.source[decl] {
+			return x.absInline(nil, decl.Type, decl.Body, nil, aval{}, args, c.Ellipsis.IsValid(), e, depth)
+		}
+	case *ast.FuncLit:
+		return x.absInline(nil, f.Type, f.Body, fr, aval{}, args, c.Ellipsis.IsValid(), e, depth)
+	}
+	return aval{}
+}
+
+// absInline evaluates a straight-line pure body (assignments, then a return).
+func (x *xl) absInline(recv *ast.FieldList, typ *ast.FuncType, body *ast.BlockStmt, parent *frame, rv aval,
+	args []aval, ellipsis bool, outer env, depth int) aval {
+	x.nframes++
+	fr := &frame{id: fmt.Sprintf("pure%d", x.nframes), parent: parent}
+	e := outer.clone() // a closure reads its captured variables through its parent frame
+	bindParams(typ, recv, rv, args, ellipsis, e, fr)
+	for _, s := range body.List {
+		switch st := s.(type) {
+		case *ast.AssignStmt:
+			vals := make([]aval, len(st.Rhs))
+			for i, r := range st.Rhs {
+				vals[i] = x.abs(r, e, fr, depth+1)
+			}
+			x.bind(st.Lhs, vals, len(st.Rhs), st.Tok, e, fr)
+		case *ast.ReturnStmt:
+			if len(st.Results) >= 1 {
+				return x.abs(st.Results[0], e, fr, depth+1)
+			}
+			return aval{}
+		default:
+			return aval{}
+		}
+	}
+	return aval{}
+}
+
+// ---------- one entry function ----------
+func (p *pkgInfo) graph(name string) (*xl, []string) {
+	fn := p.funcs[name]
+	x := &xl{p: p, root: name, memo: map[string]int{}, fresh: map[*ast.CallExpr]bool{}, shared: map[*ast.CallExpr]bool{}}
+	if fn == nil {
+		return x, []string{"IFunctionNotFound"}
+	}
+	fr := &frame{id: name}
+	e := env{}
+	for _, f := range fn.Type.Params.List {
+		v := aval{}
+		switch t := f.Type.(type) {
+		case *ast.Ellipsis:
+			v = aval{k: kFields}
+		case *ast.SelectorExpr:
+			switch t.Sel.Name {
+			case "Context":
+				v = aval{k: kCtx}
+			case "Level":
+				v = aval{k: kLevel}
+			}
+		}
+		for _, n := range f.Names {
+			e[fr.id+"."+n.Name] = v
+		}
+	}
+	x.block(fn.Body.List, e, fr, ctl{
+		next: func(env) target { return exitT },
+		ret:  func(env, []aval) target { return exitT },
+	})
+	n := len(x.nodes)
+	tgt := func(t target) int {
+		if t == exitT {
+			return n
+		}
+		return int(t)
+	}
+	readOnly := true
+	for _, nd := range x.nodes {
+		if nd.kind != "Load" {
+			readOnly = false
+		}
+	}
+	var out []string
+	for _, nd := range x.nodes {
+		switch nd.kind {
+		case "Load":
+			if readOnly && nd.succ == exitT {
+				out = append(out, fmt.Sprintf("GRead %d", tgt(nd.succ)))
+			} else {
+				out = append(out, fmt.Sprintf("GLoad %d", tgt(nd.succ)))
+			}
+		case "Store":
+			out = append(out, fmt.Sprintf("GStore %s %d", nd.tag, tgt(nd.succ)))
+		case "Cas":
+			out = append(out, fmt.Sprintf("GCas %s %d %d", nd.tag, tgt(nd.succ), tgt(nd.fail)))
+		}
+	}
+	if name == "ChildLogger" {
+		// the logger the child starts from must be the loaded one with the fields given
+		ok := len(x.stored) > 0
+		for _, v := range x.stored {
+			if !(v.k == kDerived && v.tag == "FWith") {
+				ok = false
+			}
+		}
+		if !ok {
+			x.unsupported("the child's holder is not initialised with loaded.With(fields...)")
+		}
+	}
+	for _, b := range x.bad {
+		out = append(out, "GUnsupported (* "+b+" *)")
+	}
+	return x, out
+}
+
+// ---------- instrumentation ----------
+func (p *pkgInfo) reachable(roots []string) map[*ast.FuncDecl]bool {
+	seen := map[*ast.FuncDecl]bool{}
+	var visit func(fn *ast.FuncDecl)
+	visit = func(fn *ast.FuncDecl) {
+		if fn == nil || seen[fn] || p.source[fn] {
+			return
+		}
+		seen[fn] = true
+		ast.Inspect(fn.Body, func(n ast.Node) bool {
+			if c, ok := n.(*ast.CallExpr); ok {
+				visit(p.callee(c))
+			}
+			return true
+		})
+	}
+	for _, r := range roots {
+		visit(p.funcs[r])
+	}
+	return seen
+}
+
+func (p *pkgInfo) instrument(reach map[*ast.FuncDecl]bool, freshOnly map[*ast.CallExpr]bool) int {
+	n := 0
+	hook := func(e ast.Expr) ast.Expr {
+		return &ast.CallExpr{Fun: ast.NewIdent("verifBefore"), Args: []ast.Expr{e}}
+	}
+	for fn := range reach {
+		ast.Inspect(fn.Body, func(m ast.Node) bool {
+			c, ok := m.(*ast.CallExpr)
+			if !ok {
+				return true
+			}
+			if _, ok := atomicCall(c); ok && !freshOnly[c] {
+				n++
+				if k := len(c.Args); k > 0 {
+					c.Args[k-1] = hook(c.Args[k-1])
 				} else {
-					sel := st.call.Fun.(*ast.SelectorExpr)
+					sel := c.Fun.(*ast.SelectorExpr)
 					sel.X = hook(sel.X)
 				}
+				return true
 			}
-			for _, c := range w.locks {
-				nsites++
+			if name, ok := lockCall(c); ok {
+				n++
 				sel := c.Fun.(*ast.SelectorExpr)
-				helper, method := "verifUnlock", sel.Sel.Name
-				switch sel.Sel.Name {
+				helper, method := "verifUnlock", name
+				switch name {
 				case "Lock":
 					helper, method = "verifLock", "TryLock"
 				case "RLock":
@@ -503,38 +1278,79 @@ func main() {
 				}
 				c.Fun = ast.NewIdent(helper)
 				c.Args = []ast.Expr{&ast.SelectorExpr{X: sel.X, Sel: ast.NewIdent(method)}}
+				return false
 			}
+			return true
+		})
+	}
+	return n
+}
+
+var entries = []struct{ goName, coqName string }{
+	{"WithFields", "gen_withfields"}, {"SetLevel", "gen_setlevel"}, {"ChildLogger", "gen_child"}}
+
+func main() {
+	srcp := flag.String("src", "", "path of log/context_utils.go (the whole package directory is read)")
+	gen := flag.String("gen", "", "write the Gallina graph table here")
+	instr := flag.Bool("instrument", false, "rewrite the package in place with scheduler hooks")
+	wrapgen := flag.String("wrapgen", "", "write the Gallina translation of the level-override core (custom_level.go) here")
+	flag.Parse()
+	p, err := loadPkg(filepath.Dir(*srcp))
+	if err != nil {
+		fmt.Fprintln(os.Stderr, err)
+		os.Exit(1)
+	}
+	if *wrapgen != "" {
+		if err := wrapperGen(p, *wrapgen); err != nil {
+			fmt.Fprintln(os.Stderr, err)
+			os.Exit(1)
 		}
+	}
+	graphs := map[string][]string{}
+	freshOnly := map[*ast.CallExpr]bool{}
+	shared := map[*ast.CallExpr]bool{}
+	for _, en := range entries {
+		x, g := p.graph(en.goName)
+		graphs[en.goName] = g
+		for c := range x.fresh {
+			freshOnly[c] = true
+		}
+		for c := range x.shared {
+			shared[c] = true
+		}
+	}
+	for c := range shared {
+		delete(freshOnly, c)
 	}
 	if *gen != "" {
 		var b strings.Builder
-		b.WriteString("(* generated by xlate_logconc from log/context_utils.go — do not edit *)\n")
-		b.WriteString("From Coq Require Import List.\nFrom GT Require Import Base.LogConc.\nFrom GT Require Import LogCtxModel.\nImport ListNotations.\n")
-		for _, name := range []string{"WithFields", "SetLevel"} {
-			p, ok := progs[name]
-			if !ok {
-				p = []string{"IFunctionNotFound"}
-			}
-			fmt.Fprintf(&b, "Definition gen_%s : list (instr fn) := [%s].\n", strings.ToLower(name), strings.Join(p, "; "))
+		b.WriteString("(* generated by xlate_logconc from package log - do not edit *)\n")
+		b.WriteString("From Coq Require Import List ZArith.\nFrom GT Require Import Base.LogConc.\nFrom GT Require Import Base.LogConcCfg.\nFrom GT Require Import LogCtxModel.\nImport ListNotations.\n")
+		for _, en := range entries {
+			fmt.Fprintf(&b, "Definition %s : list (ginstr fn) := [%s].\n", en.coqName, strings.Join(graphs[en.goName], "; "))
 		}
+		b.WriteString("Definition gen_prog (o : cop) : list (ginstr fn) :=\n  match o with CWith _ => gen_withfields | CSetLevel _ => gen_setlevel | CChild _ => gen_child end.\n")
 		if err := os.WriteFile(*gen, []byte(b.String()), 0o644); err != nil {
 			fmt.Fprintln(os.Stderr, err)
 			os.Exit(1)
 		}
 	}
-	if *instrument {
-		var b bytes.Buffer
-		if err := format.Node(&b, fset, f); err != nil {
-			fmt.Fprintln(os.Stderr, err)
-			os.Exit(1)
+	if *instr {
+		n := p.instrument(p.reachable([]string{"WithFields", "SetLevel", "ChildLogger"}), freshOnly)
+		for path, f := range p.files {
+			var b bytes.Buffer
+			if err := format.Node(&b, p.fset, f); err != nil {
+				fmt.Fprintln(os.Stderr, err)
+				os.Exit(1)
+			}
+			if err := os.WriteFile(path, b.Bytes(), 0o644); err != nil {
+				fmt.Fprintln(os.Stderr, err)
+				os.Exit(1)
+			}
 		}
-		if err := os.WriteFile(*src, b.Bytes(), 0o644); err != nil {
-			fmt.Fprintln(os.Stderr, err)
-			os.Exit(1)
-		}
-		fmt.Printf("instrumented %d sites\n", nsites)
+		fmt.Printf("instrumented %d sites\n", n)
 	}
-	for _, name := range []string{"WithFields", "SetLevel"} {
-		fmt.Printf("%s: [%s]\n", name, strings.Join(progs[name], "; "))
+	for _, en := range entries {
+		fmt.Printf("%s: [%s]\n", en.goName, strings.Join(graphs[en.goName], "; "))
 	}
 }
